@@ -2,56 +2,85 @@
 
 package harness
 
+// C18 — NNS accepts exactly well-formed names and record data.
+//
+// Every string is shown to the NNS contract compiled from the working tree
+// through test invocations (nothing is persisted, so every string meets the
+// same state): isAvailable / register / registerTLD for names, addRecord on a
+// domain without records and setRecord on a domain with one record of every
+// type for record data.  The verdict of the syntactic check is read off the
+// outcome: HALT (or a fault that can only be raised after the check) = 'T',
+// the check's own panic ("invalid record data", "invalid domain ...") = 'F',
+// any other fault raised inside the check (a native refusing its input,
+// "not a byte", "unsupported record type") = 'X'.
+//
+// cases_C18*.v let Coq compare (1) the implementation with the model
+// (definitions M*), and (2) the implementation with the boolean version of
+// the grammar, which Proofs/NNSSyntaxBool.v proves equivalent to the
+// declarative one (definitions MG*); the only tolerated difference is the
+// shape of finding F12, which the Go monitor reports through AddKnown.
+
 import (
+	"bytes"
 	"fmt"
+	"math/rand"
+	"os"
+	"path/filepath"
+	"regexp"
+	"sort"
+	"strconv"
 	"strings"
 	"testing"
-	"time"
 
 	"github.com/nspcc-dev/neo-go/pkg/core/transaction"
 	"github.com/nspcc-dev/neo-go/pkg/neotest"
 	"github.com/nspcc-dev/neo-go/pkg/smartcontract/callflag"
 	"github.com/nspcc-dev/neo-go/pkg/smartcontract/trigger"
 	"github.com/nspcc-dev/neo-go/pkg/util"
-	"github.com/nspcc-dev/neo-go/pkg/vm/stackitem"
 	"github.com/stretchr/testify/require"
 )
 
+const c18Known = "C18/ipv6-seven-groups-compression"
+
 // nnsEnv is a chain with the NNS contract of the working tree, TLD "com",
-// domain "test.com" owned by the validator, and one record of every data type
-// at id 0 (so that setRecord has something to replace).
+// domain "add.com" without records and domain "set.com" with one record of
+// every data type at id 0, both owned by the validator.
 type nnsEnv struct {
 	*Env
 	nns    util.Uint160
 	owner  neotest.Signer
-	domain string
+	faults map[string]int
 }
 
 func newNNSEnv(t testing.TB) *nnsEnv {
 	v := NewEnv(t)
 	ctr := v.Compile("nns")
 	v.E.DeployContract(t, ctr, nil)
-	n := &nnsEnv{Env: v, nns: ctr.Hash, owner: v.E.Validator, domain: "test.com"}
+	n := &nnsEnv{Env: v, nns: ctr.Hash, owner: v.E.Validator, faults: map[string]int{}}
 	year := int64(365 * 24 * 3600)
 	r := v.Invoke([]neotest.Signer{v.E.Committee}, n.nns, "registerTLD", "com", "a@b.c", int64(101), int64(102), 100*year, int64(104))
 	require.True(t, r.Halt, r.Fault)
-	r = v.Invoke([]neotest.Signer{n.owner}, n.nns, "register", n.domain, n.owner.ScriptHash(), "a@b.c", int64(101), int64(102), 100*year, int64(104))
-	require.True(t, r.Halt, r.Fault)
+	for _, d := range []string{"add.com", "set.com"} {
+		r = v.Invoke([]neotest.Signer{n.owner}, n.nns, "register", d, n.owner.ScriptHash(), "a@b.c", int64(101), int64(102), 100*year, int64(104))
+		require.True(t, r.Halt, r.Fault)
+	}
 	for _, rec := range []struct {
 		typ  int64
 		data string
 	}{{1, "8.8.8.8"}, {5, "alias.com"}, {16, "text"}, {28, "2001:4860:4860::8888"}} {
-		r = v.Invoke([]neotest.Signer{n.owner}, n.nns, "addRecord", n.domain, rec.typ, rec.data)
+		r = v.Invoke([]neotest.Signer{n.owner}, n.nns, "setRecord", "set.com", rec.typ, int64(0), rec.data)
+		require.False(t, r.Halt) // nothing to replace yet
+		r = v.Invoke([]neotest.Signer{n.owner}, n.nns, "addRecord", "set.com", rec.typ, rec.data)
 		require.True(t, r.Halt, r.Fault)
 	}
 	return n
 }
 
-// try runs a test invocation (nothing is persisted) signed by the owner and
-// returns "" on HALT, the fault text otherwise.
-func (n *nnsEnv) try(method string, args ...any) string {
+// try runs a test invocation signed (Global) by signer; "" on HALT, the fault
+// text otherwise.
+func (n *nnsEnv) try(signer util.Uint160, method string, args ...any) string {
 	tx := n.E.NewUnsignedTx(n.T, n.nns, method, args...)
-	tx.Signers = []transaction.Signer{{Account: n.owner.ScriptHash(), Scopes: transaction.Global}}
+	tx.Signers = []transaction.Signer{{Account: signer, Scopes: transaction.Global}}
 	b := n.E.NewUnsignedBlock(n.T, tx)
 	ic, err := n.BC.GetTestVM(trigger.Application, tx, b)
 	require.NoError(n.T, err)
@@ -60,60 +89,749 @@ func (n *nnsEnv) try(method string, args ...any) string {
 	if err = ic.VM.Run(); err != nil {
 		return "FAULT: " + err.Error()
 	}
-	if method == "isAvailable" {
-		if bl, e := ic.VM.Estack().Pop().Item().TryBool(); e == nil && !bl {
-			return "" // not available, but a well-formed name
-		}
-	}
 	return ""
 }
 
-var _ = stackitem.Null{}
+var c18Quoted = regexp.MustCompile(`unhandled exception: "([^"]*)"`)
 
-func TestC18Probe(t *testing.T) {
-	n := newNNSEnv(t)
-	show := func(kind string, typ int64, ss ...string) {
-		for _, s := range ss {
-			var f string
-			if kind == "name" {
-				f = n.try("isAvailable", []byte(s))
-			} else {
-				f = n.try("addRecord", n.domain, typ, []byte(s))
-			}
-			if i := strings.Index(f, "error encountered"); i >= 0 {
-				f = f[i:]
-			}
-			if len(f) > 90 {
-				f = f[len(f)-90:]
-			}
-			fmt.Printf("%-5s %-44q %s\n", kind, s, f)
+// classify maps an outcome to 'T', 'F' or 'X'. checkMsgs are the panics of
+// the syntactic check itself, laterMsgs the panics that can only be reached
+// after it succeeded.
+func (n *nnsEnv) classify(fault string, checkMsgs, laterMsgs, insideMsgs []string) byte {
+	if fault == "" {
+		return 'T'
+	}
+	msg := fault
+	if m := c18Quoted.FindStringSubmatch(fault); m != nil {
+		msg = m[1]
+	} else if i := strings.LastIndex(fault, "): "); i >= 0 {
+		msg = "native: " + fault[i+3:]
+	}
+	for _, m := range checkMsgs {
+		if msg == m {
+			return 'F'
 		}
 	}
-	show("A", 1, "1.2.3.4", "+1.2.3.4", "1.+2.3.4", "1.2.3.256", "1.2.3.999", "01.2.3.4", "1.2.3.00", "1.2.3.0", "1.2.3.x", "1.2.3.4x", "1.2.3.4_", "1.2.3.1_0",
-		"100.100.100.100", "100.100.100.1000", "1.2.3", "1.2.3.4.5", "1.2.3.", "223.255.255.254", "224.1.1.1", "1.2.3.-4", "1.2.3.4 ", "1.2.3.\xff", "9.9.9.0009", "9.9.9.9e0")
-	show("AAAA", 28, "2001:4860::8888", "2003:1:2:3:4:5:6::", "::2003:1:2:3:4:5:6", "2003::1:2:3:4:5:6", "2003:1:2:3:4:5::6", "2003:1:2:3:4:5:6:7", "2003:1:2:3:4:5:6:7:8",
-		"::", ":::", "2003::", "2003:::", "2003::1::2", ":2003::1", "2003::1:", "2003:0000::1", "2003:00000::1", "2003:DB8::A", "2003:g::1", "2003:-1::1", "2003:+1::1",
-		"2001:800::1", "2001:8000::1", "2001:db9::1", "2001:db8::1", "2001:1ff::1", "2001:200::1", "2002::1", "3ffe::1", "3fff::1", "4000::1", "2000::", "1fff::1",
-		"2003::1.2.3.4", "2003:1:2:3:4:5:1.2.3.4", "2003", "2003:1", "", "2003:1:2:3:4:5:6:", ":2003:1:2:3:4:5:6", "2003:\xff::1", "2003: 1::1", "2003:0x1::1", "2003:1:2:3::5:6:7:8", "2003:1:2:3:4::5:6:7:8")
-	show("TXT", 16, "", strings.Repeat("x", 255), strings.Repeat("x", 256), "\xff\xfe", strings.Repeat("\xff", 255))
-	show("CNAME", 5, "a.b", "ab", "abc", "a-b.com", "-ab.com", "ab-.com", "a--b.com", "a.com.", ".a.com", "a..com", "A.com", "a_b.com", "a.1om", "a.c-m", "a.c0", "a.co-",
-		strings.Repeat("a", 63)+".com", strings.Repeat("a", 64)+".com", "a."+strings.Repeat("c", 16), "a."+strings.Repeat("c", 17), "\xff\xfe.com", "1.2")
-	show("name", 0, "a.b", "ab", "abc", "com", "x.com", "test.com", "a.test.com", "zz.zz", "A.com", "a.com.", "\xffa.com")
-	long := strings.Repeat(strings.Repeat("a", 63)+".", 3) + strings.Repeat("a", 59) + ".com"
-	fmt.Println(len(long))
-	show("CNAME", 5, long, "a"+long, long[1:])
-	show("other", 6, "x")
-	show("other", 0, "x")
-	show("other", 2, "1.2.3.4")
+	for _, m := range laterMsgs {
+		if msg == m {
+			return 'T'
+		}
+	}
+	for _, m := range insideMsgs {
+		if msg == m {
+			n.faults[msg]++
+			return 'X'
+		}
+	}
+	n.faults["UNEXPECTED: "+msg]++
+	return '?'
+}
 
-	t0 := time.Now()
-	for i := 0; i < 2000; i++ {
-		n.try("addRecord", n.domain, int64(28), []byte(fmt.Sprintf("2003:%x::1", i)))
+var (
+	c18NameCheck   = []string{"invalid domain name length", "invalid domain fragment"}
+	c18NameInside  = []string{"native: invalid value: not UTF-8"}
+	c18RecCheck    = []string{"invalid record data"}
+	c18RecInside   = []string{"native: invalid value: not UTF-8", "native: invalid format", "not a byte", "unsupported record type"}
+	c18AvailLater  = []string{"TLD not found"}
+	c18RegLater    = []string{"TLD denied", "TLD not found", "one of the parent domains is not registered", "not witnessed by admin"}
+	c18RegTLDLater = []string{"not a TLD", "TLD already exists"}
+)
+
+func (n *nnsEnv) isAvailable(s []byte) byte {
+	return n.classify(n.try(n.owner.ScriptHash(), "isAvailable", s), c18NameCheck, c18AvailLater, c18NameInside)
+}
+func (n *nnsEnv) register(s []byte) byte {
+	return n.classify(n.try(n.owner.ScriptHash(), "register", s, n.owner.ScriptHash(), "a@b.c", int64(1), int64(2), int64(3000000), int64(4)),
+		c18NameCheck, c18RegLater, c18NameInside)
+}
+func (n *nnsEnv) registerTLD(s []byte) byte {
+	return n.classify(n.try(n.E.CommitteeHash, "registerTLD", s, "a@b.c", int64(1), int64(2), int64(3000000), int64(4)),
+		c18NameCheck, c18RegTLDLater, c18NameInside)
+}
+func (n *nnsEnv) addRecord(typ int64, s []byte) byte {
+	return n.classify(n.try(n.owner.ScriptHash(), "addRecord", "add.com", typ, s), c18RecCheck, nil, c18RecInside)
+}
+func (n *nnsEnv) setRecord(typ int64, s []byte) byte {
+	// a type without a record at id 0 reaches "invalid record id" after the check
+	return n.classify(n.try(n.owner.ScriptHash(), "setRecord", "set.com", typ, int64(0), s), c18RecCheck, []string{"invalid record id"}, c18RecInside)
+}
+
+// ---------------------------------------------------------------------------
+// Coq output
+
+func packString(s []byte) string {
+	if len(s) == 0 {
+		return "[]"
 	}
-	fmt.Println("addRecord test invocation:", time.Since(t0)/2000)
-	t0 = time.Now()
-	for i := 0; i < 2000; i++ {
-		n.try("isAvailable", []byte(fmt.Sprintf("a%d.com", i)))
+	var ws []string
+	for i := 0; i < len(s); i += 7 {
+		c := s[i:min(i+7, len(s))]
+		var w uint64
+		for j := len(c) - 1; j >= 0; j-- {
+			w = w<<8 | uint64(c[j])
+		}
+		w |= 1 << (8 * uint(len(c)))
+		ws = append(ws, strconv.FormatUint(w, 10))
 	}
-	fmt.Println("isAvailable test invocation:", time.Since(t0)/2000)
+	return "[" + strings.Join(ws, ";") + "]"
+}
+
+// rowsWriter emits packed strings as named rows of at most 200 strings.
+type rowsWriter struct {
+	sb   strings.Builder
+	next int
+}
+
+func (w *rowsWriter) rows(ss [][]byte) string {
+	var names []string
+	for i := 0; i < len(ss); i += 200 {
+		name := fmt.Sprintf("r%d", w.next)
+		w.next++
+		parts := make([]string, 0, 200)
+		for _, s := range ss[i:min(i+200, len(ss))] {
+			parts = append(parts, packString(s))
+		}
+		fmt.Fprintf(&w.sb, "Definition %s : list (list int) := [%s].\n", name, strings.Join(parts, ";\n"))
+		names = append(names, name)
+	}
+	return "[" + strings.Join(names, "; ") + "]"
+}
+
+const c18Header = "From Verif Require Import Base.Prelude Model.NNSSyntax Spec.Grammar Model.NNSSyntaxRun.\nFrom Coq Require Import Uint63.\nLocal Open Scope uint63_scope.\n"
+
+func obsLit(o byte) string {
+	switch o {
+	case 'T':
+		return "VBool true"
+	case 'F':
+		return "VBool false"
+	default:
+		return "VFault"
+	}
+}
+
+// ---------------------------------------------------------------------------
+// Families (exhaustive)
+
+type c18Family struct {
+	name   string
+	typ    int64 // 0 = isAvailable
+	sep    int   // -1 = none
+	tokens []string
+	n      int
+}
+
+func (f c18Family) enumerate(visit func(s []byte)) {
+	var sepS string
+	if f.sep >= 0 {
+		sepS = string([]byte{byte(f.sep)})
+	}
+	idx := make([]int, 0, f.n)
+	var rec func(k int)
+	parts := make([]string, f.n)
+	rec = func(k int) {
+		if len(idx) == k {
+			for i, x := range idx {
+				parts[i] = f.tokens[x]
+			}
+			visit([]byte(strings.Join(parts[:k], sepS)))
+			return
+		}
+		for t := range f.tokens {
+			idx = append(idx, t)
+			rec(k)
+			idx = idx[:len(idx)-1]
+		}
+	}
+	for k := 1; k <= f.n; k++ {
+		rec(k)
+	}
+}
+
+func (f c18Family) coq(acc, flt string) string {
+	sep := "None"
+	if f.sep >= 0 {
+		sep = fmt.Sprintf("(Some %d%%N)", f.sep)
+	}
+	toks := make([]string, len(f.tokens))
+	for i, t := range f.tokens {
+		toks[i] = BytesLit([]byte(t))
+	}
+	return fmt.Sprintf("(%d%%Z, %s, %s, %d%%nat, %s, %s)", f.typ, sep, ListLit(toks), f.n, acc, flt)
+}
+
+// ---------------------------------------------------------------------------
+// Listed strings
+
+type c18Case struct {
+	typ int64
+	s   string
+}
+
+func c18IPv4Mutations() []string {
+	var out []string
+	add := func(s string) { out = append(out, s) }
+	vals := []int{0, 1, 9, 10, 99, 100, 126, 127, 128, 169, 172, 192, 223, 224, 255, 256, 999}
+	for _, a := range vals {
+		for _, b := range []int{0, 15, 16, 31, 32, 167, 168, 253, 254, 255} {
+			for _, d := range []int{0, 1, 254, 255} {
+				add(fmt.Sprintf("%d.%d.8.%d", a, b, d))
+			}
+		}
+	}
+	for p := 0; p < 4; p++ {
+		for _, v := range vals {
+			o := []string{"8", "8", "8", "8"}
+			o[p] = strconv.Itoa(v)
+			add(strings.Join(o, "."))
+		}
+		for _, v := range []string{"+8", "-8", "08", "008", "0008", "00", "000", " 8", "8 ", "8x", "x8", "x", "0x8", "8e0", "8_0", "1_0",
+			"", "+", "-", "+0", "-0", "８", "٨", "8\x00", "\x008", "8\n", "256", "0256", "300", "1000", "99999999", "+256", "-1", "2 5", "0.8"} {
+			o := []string{"8", "9", "7", "6"}
+			o[p] = v
+			add(strings.Join(o, "."))
+		}
+	}
+	for _, s := range []string{"", ".", "...", "....", "1.1.1.1", "1.1.1", "1.1.1.", ".1.1.1", "1.1.1.1.", ".1.1.1.1", "1..1.1", "1.1.1.1.1", "1.1.1.10",
+		"100.100.100.100", "100.100.100.1000", "1.1.1.1000000000", "1.1.1.000000001", "1.1.1.0000000001", "255.255.255.255", "223.255.255.254",
+		"1.1.1.1 ", " 1.1.1.1", "1.1.1.1\x00", "1,1,1,1", "1:1:1:1", "+1.2.3.4", "1.+2.3.4", "+1.+2.+3.+4", "1.2.3.+4", "-1.2.3.4", "1.2.3.-4",
+		"1.2.3.4\xff", "\xff.2.3.4", "1.2.3.\xc3\xa9", "0x1.2.3.4", "1.2.3.4/8", "01.02.03.04", "001.2.3.4", "1.2.3.04", "1.2.3.40", "1.2.3.004",
+		"172.16.0.1", "172.15.255.1", "172.31.255.1", "172.32.0.1", "169.254.1.1", "169.253.1.1", "192.168.1.1", "192.167.1.1", "192.169.1.1",
+		"10.0.0.1", "11.0.0.1", "9.255.255.1", "127.0.0.1", "126.0.0.1", "128.0.0.1", "0.0.0.1", "224.0.0.1", "223.0.0.1", "239.1.1.1", "240.1.1.1", "255.1.1.1",
+		"8.8.8.0", "8.8.8.255", "8.8.0.8", "8.8.255.8", "8.0.0.8", "8.255.255.8"} {
+		add(s)
+	}
+	return out
+}
+
+func c18IPv6Mutations() []string {
+	var out []string
+	add := func(s string) { out = append(out, s) }
+	groups := []string{"0", "1", "1ff", "200", "db8", "db9", "7fff", "8000", "ffff", "10000", "2000", "2001", "2002", "2003", "3ffe", "3fff", "4000", "1fff",
+		"0000", "00000", "0200", "01ff", "0db8", "DB8", "Db9", "FFFF", "aBcD", "g", "-1", "+1", "", " 1", "1 ", "0x1", "1_", "２", "\xff", "1.2.3.4", "fffff", "1e1"}
+	for _, g0 := range []string{"2000", "2001", "2002", "2003", "3ffe", "3fff", "4000", "1fff", "0", "ffff", "02001", "2A03", "3FFE", "3fFf", "200", "20010"} {
+		for _, g1 := range groups {
+			add(g0 + ":" + g1 + "::1")
+		}
+	}
+	base := []string{"2003", "1", "2", "3", "4", "5", "6", "7"}
+	for p := 0; p < 8; p++ {
+		for _, g := range groups {
+			o := append([]string{}, base...)
+			o[p] = g
+			add(strings.Join(o, ":"))
+		}
+	}
+	gs := []string{"2003", "a", "b", "c", "d", "e", "f", "9", "8", "7"}
+	for k := 0; k <= 9; k++ { // k groups, "::" after the first p of them
+		for p := 0; p <= k; p++ {
+			add(strings.Join(gs[:p], ":") + "::" + strings.Join(gs[p:k], ":"))
+			add(strings.Join(gs[:p], ":") + ":::" + strings.Join(gs[p:k], ":"))
+			add(strings.Join(gs[:p], ":") + "::" + strings.Join(gs[p:k], ":") + ":")
+			add(":" + strings.Join(gs[:p], ":") + "::" + strings.Join(gs[p:k], ":"))
+			add(strings.Join(gs[:p], ":") + "::" + strings.Join(gs[p:k], ":") + "::")
+			for q := p + 1; q < k; q++ {
+				add(strings.Join(gs[:p], ":") + "::" + strings.Join(gs[p:q], ":") + "::" + strings.Join(gs[q:k], ":"))
+			}
+		}
+		if k >= 1 {
+			add(strings.Join(gs[:k], ":")) // 1..9 plain groups
+			add(strings.Join(gs[:k], ":") + ":")
+			add(":" + strings.Join(gs[:k], ":"))
+		}
+	}
+	// seven groups and a compression at either end, several first groups
+	for _, g0 := range []string{"2003", "2001", "2002", "3ffe", "3fff", "2000", "1fff", "4000", "0", "FFFF"} {
+		for _, g1 := range []string{"1", "1ff", "200", "db8", "db9"} {
+			add(g0 + ":" + g1 + ":2:3:4:5:6::")
+			add("::" + g0 + ":" + g1 + ":2:3:4:5:6")
+			add(g0 + ":" + g1 + ":2:3:4:5::")
+			add(g0 + ":" + g1 + ":2:3:4:5::6")
+			add(g0 + ":" + g1 + ":2:3:4:5:6:7")
+		}
+	}
+	for _, s := range []string{"", ":", "::", ":::", "::::", "1", "::1", "1::", "2003::", "::2003", "2003::1", "2003:0:0:0:0:0:0:1", "2003:0::0:1",
+		"2003:ABCD::EF", "2003:abcd::ef", "2003:AbCd::eF", "2003::1.2.3.4", "::ffff:1.2.3.4", "2003:1:2:3:4:5:1.2.3.4", "2003::1%eth0", "2003::1/64", "[2003::1]",
+		"2003:1111:2222:3333:4444:5555:6666:7777", "2003:1111:2222:3333:4444:5555:6666:77777", "2003:1111:2222:3333:4444:5555:6666::", "02003:1111:2222:3333:4444:5555:6666:7777",
+		"2003:1111:2222:3333:4444:5555::7777", "2003::1 ", " 2003::1", "2003::1\x00", "2003::\xff", "2003::\xc3\xa9", "2003-1::1", "2003.1::1", "2003:1:2:3:4:5:6:7:8", "2003:1:2:3:4:5:6:7:8:9",
+		"2001:800::1", "2001:8000::1", "2001:db9::1", "2001:500::1", "2001:200::1", "2001:1ff::1", "2001:db8::1", "2001::1", "2001:0::1", "2001:0db8::", "2001:DB8::", "2001:0DB9::"} {
+		add(s)
+	}
+	return out
+}
+
+func c18NameMutations() []string {
+	var out []string
+	add := func(s string) { out = append(out, s) }
+	rep := strings.Repeat
+	for _, s := range []string{"", "a", "ab", "abc", "a.b", "a.", ".a", ".", "..", "...", "a..b", "a.b.", ".a.b", "a.b.c", "com", "x.com", "test.com", "a.test.com",
+		"A.com", "a.Com", "a.coM", "aB.com", "a_b.com", "_a.com", "a_.com", "a.c_m", "a-b.com", "-ab.com", "ab-.com", "a--b.com", "a.c-m", "a.-cm", "a.cm-", "a.c--m",
+		"xn--e1afmkfd.com", "1a.com", "a1.com", "1.com", "0.com", "a.1om", "a.c0m", "a.c0", "a.0", "a.9a", "9.a", "9", "999", "a9", "9a9", "a.b9", "1.2", "1.2.3.4",
+		"a b.com", " a.com", "a.com ", "a.com\x00", "a\x00.com", "a+b.com", "a.com.", "a,com", "a/b.com", "a@b.com", "a:b.com", "a.co:m",
+		"\xffa.com", "a.\xffom", "\xc3\xa9.com", "a.\xc3\xa9", "é.com", "пример.com", "a.中", "-.com", "a.-", "-", "---", "a-", "-a", "a-a", "a.a-a", "a-a.a",
+		"z.z", "z9.z9", "zz.zz", "a.zzzzzzzzzzzzzzzz", "a.zzzzzzzzzzzzzzzzz"} {
+		add(s)
+	}
+	for _, l := range []int{1, 2, 15, 16, 17, 62, 63, 64, 65, 100} {
+		add(rep("a", l))              // a TLD alone
+		add(rep("a", l) + ".com")     // a label
+		add("x." + rep("c", l))       // a TLD after a label
+		add("x." + rep("a", l) + ".b") // an inner label
+		if l >= 3 {
+			add("a" + rep("-", l-2) + "b.com")
+			add("1" + rep("a", l-1))
+			add("x.1" + rep("a", l-1))
+			add("x." + rep("a", l-1) + "-")
+			add("x." + rep("a", l-1) + "1")
+		}
+	}
+	// total length 2, 3, 254, 255, 256 with legal labels
+	lab := rep("a", 63)
+	full := lab + "." + lab + "." + lab + "." // 192
+	for _, tail := range []int{57, 58, 59, 60, 61, 62, 63} {
+		add(full + rep("b", tail) + ".com") // 192+tail+4
+		add(full + rep("b", tail-13) + "." + rep("c", 16))
+	}
+	add(rep("a.", 126) + "b")   // 253
+	add(rep("a.", 127) + "b")   // 255
+	add(rep("a.", 127) + "bb")  // 256
+	add(rep("a.", 128) + "b")   // 257
+	add(rep("a.", 127) + "1")   // 255, numeric TLD
+	add(rep("a.", 127))         // 254, trailing dot
+	add(rep("a", 255))
+	add(rep("a", 256))
+	add(rep("ab.", 400))
+	add(rep("a", 1024))
+	add(rep("a", 1025))
+	add(rep("\xc3\xa9", 100))
+	return out
+}
+
+func c18TXTMutations() []string {
+	rep := strings.Repeat
+	return []string{"", "x", rep("x", 254), rep("x", 255), rep("x", 256), rep("x", 257), rep("x", 1024), rep("x", 1025), rep("x", 2000),
+		"\xff\xfe", rep("\xff", 255), rep("\xff", 256), rep("\x00", 255), rep("\x00", 256), rep("é", 127), rep("é", 128), "v=spf1 include:_spf.example.com ~all"}
+}
+
+func c18Random(rng *rand.Rand, count int) []c18Case {
+	var out []c18Case
+	pick := func(a string) byte { return a[rng.Intn(len(a))] }
+	mutate := func(s string, alpha string) string {
+		b := []byte(s)
+		for k := rng.Intn(3); k > 0; k-- {
+			switch rng.Intn(3) {
+			case 0:
+				if len(b) > 0 {
+					b[rng.Intn(len(b))] = pick(alpha)
+				}
+			case 1:
+				i := rng.Intn(len(b) + 1)
+				b = append(b[:i], append([]byte{pick(alpha)}, b[i:]...)...)
+			default:
+				if len(b) > 0 {
+					i := rng.Intn(len(b))
+					b = append(b[:i], b[i+1:]...)
+				}
+			}
+		}
+		return string(b)
+	}
+	for i := 0; i < count; i++ {
+		// A: four octet-like tokens
+		var o []string
+		for k := 0; k < 4; k++ {
+			switch rng.Intn(10) {
+			case 0:
+				o = append(o, strconv.Itoa(rng.Intn(1200)))
+			case 1:
+				o = append(o, "0"+strconv.Itoa(rng.Intn(256)))
+			case 2:
+				o = append(o, []string{"0", "10", "127", "169", "172", "192", "224", "254", "255", "168", "16", "31"}[rng.Intn(12)])
+			default:
+				o = append(o, strconv.Itoa(rng.Intn(256)))
+			}
+		}
+		s := strings.Join(o, ".")
+		if rng.Intn(3) == 0 {
+			s = mutate(s, "0123456789.+- x")
+		}
+		out = append(out, c18Case{1, s})
+		// AAAA: hex-like tokens with an optional compression
+		ng := 1 + rng.Intn(9)
+		var g []string
+		for k := 0; k < ng; k++ {
+			switch {
+			case k == 0 && rng.Intn(4) != 0:
+				g = append(g, []string{"2000", "2001", "2002", "2003", "2a02", "3ffe", "3fff", "3000", "2A00", "1fff", "4000"}[rng.Intn(11)])
+			case k == 1 && rng.Intn(3) == 0:
+				g = append(g, []string{"0", "1ff", "200", "db8", "db9", "8000", "ffff"}[rng.Intn(7)])
+			default:
+				l := 1 + rng.Intn(4)
+				if rng.Intn(12) == 0 {
+					l = rng.Intn(7)
+				}
+				tok := make([]byte, l)
+				for j := range tok {
+					tok[j] = pick("0123456789abcdefABCDEF")
+					if rng.Intn(60) == 0 {
+						tok[j] = pick("gG-+ .xz")
+					}
+				}
+				g = append(g, string(tok))
+			}
+		}
+		switch rng.Intn(4) {
+		case 0:
+			s = strings.Join(g, ":")
+		default:
+			p := rng.Intn(len(g) + 1)
+			s = strings.Join(g[:p], ":") + "::" + strings.Join(g[p:], ":")
+		}
+		if rng.Intn(4) == 0 {
+			s = mutate(s, "0123456789abcdefABCDEF:::g. ")
+		}
+		out = append(out, c18Case{28, s})
+		// names
+		nl := 1 + rng.Intn(4)
+		var ls []string
+		for k := 0; k < nl; k++ {
+			l := 1 + rng.Intn(6)
+			if rng.Intn(10) == 0 {
+				l = []int{15, 16, 17, 62, 63, 64}[rng.Intn(6)]
+			}
+			lb := make([]byte, l)
+			for j := range lb {
+				lb[j] = pick("abcxyz0189")
+				if rng.Intn(8) == 0 {
+					lb[j] = pick("-__AZ+ .")
+				}
+			}
+			ls = append(ls, string(lb))
+		}
+		s = strings.Join(ls, ".")
+		typ := int64(0)
+		if rng.Intn(3) == 0 {
+			typ = 5
+		}
+		out = append(out, c18Case{typ, s})
+	}
+	return out
+}
+
+// ---------------------------------------------------------------------------
+// F12 signature (the only grammar knowledge on the Go side)
+
+var c18SevenGroups = regexp.MustCompile(`^([0-9a-fA-F]{1,4}:){6}[0-9a-fA-F]{1,4}::$`)
+
+func c18IsF12(s string) bool {
+	if !c18SevenGroups.MatchString(s) {
+		return false
+	}
+	p := strings.Split(s, ":")
+	g0, _ := strconv.ParseUint(p[0], 16, 32)
+	g1, _ := strconv.ParseUint(p[1], 16, 32)
+	if g0 < 0x2000 || g0 > 0x3fff || g0 == 0x2002 || g0 == 0x3ffe {
+		return false
+	}
+	return g0 != 0x2001 || (g1 >= 0x200 && g1 != 0xdb8)
+}
+
+// ---------------------------------------------------------------------------
+
+func TestC18(t *testing.T) {
+	n := newNNSEnv(t)
+	st := NewStats("C18")
+	out := OutDir()
+	thorough := Tier() == "thorough"
+
+	distinct := map[string]bool{}
+	nontrivial := map[string]bool{}
+	note := func(typ int64, s []byte, o byte) {
+		k := strconv.FormatInt(typ, 10) + "/" + string(s)
+		if distinct[k] {
+			return
+		}
+		distinct[k] = true
+		l := len(s)
+		gate := true
+		switch typ {
+		case 0, 5:
+			gate = l >= 3 && l <= 255
+		case 1:
+			gate = l >= 7 && l <= 15
+		case 28:
+			gate = l >= 2 && l <= 39
+		}
+		if gate {
+			nontrivial[k] = true
+		}
+		kind := map[int64]string{0: "name", 1: "A", 5: "CNAME", 16: "TXT", 28: "AAAA"}[typ]
+		if kind == "" {
+			kind = "other-type"
+		}
+		st.OutcomeHistogram[kind+"/"+map[byte]string{'T': "accepted", 'F': "rejected", 'X': "fault-in-check", '?': "unexpected"}[o]]++
+		if typ == 28 && o == 'F' && c18IsF12(string(s)) {
+			st.AddKnown(c18Known)
+		}
+	}
+	evalOne := func(typ int64, s []byte, all bool) byte {
+		var o byte
+		if typ == 0 {
+			o = n.isAvailable(s)
+			st.OpHistogram["isAvailable"]++
+			st.Evaluations++
+			if all {
+				for name, f := range map[string]func([]byte) byte{"register": n.register, "registerTLD": n.registerTLD} {
+					o2 := f(s)
+					st.OpHistogram[name]++
+					st.Evaluations++
+					if o2 != o {
+						st.AddViolation(fmt.Sprintf("isAvailable says %c and %s says %c for the name %q", o, name, o2, s), map[string]any{"name_hex": Hex(s)})
+					}
+				}
+			}
+		} else {
+			o = n.addRecord(typ, s)
+			st.OpHistogram["addRecord"]++
+			st.Evaluations++
+			if all {
+				o2 := n.setRecord(typ, s)
+				st.OpHistogram["setRecord"]++
+				st.Evaluations++
+				if o2 != o {
+					st.AddViolation(fmt.Sprintf("addRecord says %c and setRecord says %c for type %d data %q", o, o2, typ, s), map[string]any{"type": typ, "data_hex": Hex(s)})
+				}
+			}
+		}
+		if o == '?' {
+			st.AddViolation(fmt.Sprintf("unexpected outcome for type %d string %q", typ, s), map[string]any{"type": typ, "data_hex": Hex(s)})
+		}
+		note(typ, s, o)
+		return o
+	}
+
+	// ---- 1. corpus + mutations + random strings, listed in cases_C18.v ----
+	var listed []c18Case
+	for _, s := range []string{"+1.2.3.4", "1.+2.3.4", "+1.+2.+3.+4"} { // F10 (repaired by 0620db8)
+		listed = append(listed, c18Case{1, s})
+	}
+	for _, s := range []string{"2001:800::1", "2001:8000::1", "2001:db9::1", "2003:1:2:3:4:5:6::"} { // F11 (repaired by 131c44b), F12
+		listed = append(listed, c18Case{28, s})
+	}
+	for _, s := range c18IPv4Mutations() {
+		listed = append(listed, c18Case{1, s})
+	}
+	for _, s := range c18IPv6Mutations() {
+		listed = append(listed, c18Case{28, s})
+	}
+	for _, s := range c18NameMutations() {
+		listed = append(listed, c18Case{0, s}, c18Case{5, s})
+	}
+	for _, s := range c18TXTMutations() {
+		listed = append(listed, c18Case{16, s})
+	}
+	for _, typ := range []int64{0x00, 2, 6, 15, 17, 27, 29, 255, 256, -1, 1 << 40} {
+		for _, s := range []string{"x", "1.2.3.4", "a.com", "2003::1", ""} {
+			if typ != 0 {
+				listed = append(listed, c18Case{typ, s})
+			}
+		}
+	}
+	nMut := len(listed)
+	nRand := 2500
+	if thorough {
+		nRand = 25000
+	}
+	listed = append(listed, c18Random(Rng(18), nRand)...)
+
+	groups := map[string][][]byte{} // "typ/outcome" -> strings
+	seen := map[string]bool{}
+	for i, c := range listed {
+		k := strconv.FormatInt(c.typ, 10) + "/" + c.s
+		if seen[k] {
+			continue
+		}
+		seen[k] = true
+		typ := c.typ
+		o := evalOne(typ, []byte(c.s), i < nMut)
+		gk := strconv.FormatInt(typ, 10) + "/" + string(o)
+		groups[gk] = append(groups[gk], []byte(c.s))
+	}
+	st.Histories = len(seen)
+	gkeys := make([]string, 0, len(groups))
+	for k := range groups {
+		gkeys = append(gkeys, k)
+	}
+	sort.Strings(gkeys)
+	// several files when the packed strings exceed ~450 kB
+	fileNo := 0
+	flush := func(w *rowsWriter, gl []string) {
+		name := "cases_C18.v"
+		if fileNo > 0 {
+			name = fmt.Sprintf("cases_C18_l%d.v", fileNo)
+		}
+		fileNo++
+		body := c18Header + w.sb.String() +
+			"Definition groups : list group := [\n" + strings.Join(gl, ";\n") + "\n].\n" +
+			"Definition M := Eval vm_compute in flat_map group_model groups.\nPrint M.\n" +
+			"Definition MG := Eval vm_compute in flat_map group_grammar groups.\nPrint MG.\n"
+		require.NoError(t, os.WriteFile(filepath.Join(out, name), []byte(body), 0o644))
+	}
+	w := &rowsWriter{}
+	var gl []string
+	for _, gk := range gkeys {
+		parts := strings.SplitN(gk, "/", 2)
+		ss := groups[gk]
+		for len(ss) > 0 {
+			room := 450000 - w.sb.Len()
+			take := 0
+			for sz := 0; take < len(ss) && sz < room; take++ {
+				sz += 3*len(ss[take]) + 4
+			}
+			gl = append(gl, fmt.Sprintf("(%s%%Z, %s, %s)", parenNeg(parts[0]), obsLit(parts[1][0]), w.rows(ss[:take])))
+			ss = ss[take:]
+			if w.sb.Len() >= 450000 {
+				flush(w, gl)
+				w, gl = &rowsWriter{}, nil
+			}
+		}
+	}
+	if len(gl) > 0 || fileNo == 0 {
+		flush(w, gl)
+	}
+
+	// ---- 2. exhaustive families, enumerated on both sides ----
+	nameAlpha := []string{"a", "z", "0", "9", "-", ".", "A", "_", "+", " "}
+	nameLen := 4
+	v4tok := []string{"", "0", "1", "255", "256", "01"}
+	v6tok := []string{"", "2003", "1"}
+	v6n := 9
+	if thorough {
+		nameLen = 5
+		v4tok = []string{"", "0", "1", "255", "256", "01", "+1", "9"}
+	}
+	fams := []c18Family{
+		{"names_isAvailable", 0, -1, nameAlpha, nameLen},
+		{"names_cname", 5, -1, nameAlpha, nameLen},
+		{"ipv4_tokens", 1, '.', v4tok, 5},
+		{"ipv6_tokens", 28, ':', v6tok, v6n},
+	}
+	if thorough {
+		fams = append(fams, c18Family{"ipv6_tokens4", 28, ':', []string{"", "2003", "1", "0"}, 8})
+	}
+	famSizes := map[string]int{}
+	for fi, f := range fams {
+		var acc, flt [][]byte
+		cnt := 0
+		f.enumerate(func(s []byte) {
+			cnt++
+			switch evalOne(f.typ, s, false) {
+			case 'T':
+				acc = append(acc, bytes.Clone(s))
+			case 'X':
+				flt = append(flt, bytes.Clone(s))
+			}
+		})
+		famSizes[f.name] = cnt
+		w := &rowsWriter{}
+		accR, fltR := w.rows(acc), w.rows(flt)
+		body := c18Header + w.sb.String() +
+			"Definition fam : family := " + f.coq(accR, fltR) + ".\n" +
+			fmt.Sprintf("Definition size_ok := Eval vm_compute in (family_size fam =? %d)%%Z.\n", cnt) +
+			"Definition M := Eval vm_compute in (if size_ok then [] else [(0%Z, [], false)]) ++ fst (family_model fam).\nPrint M.\n" +
+			"Definition MX := Eval vm_compute in snd (family_model fam).\nPrint MX.\n" +
+			"Definition MG := Eval vm_compute in family_grammar fam.\nPrint MG.\n"
+		require.NoError(t, os.WriteFile(filepath.Join(out, fmt.Sprintf("cases_C18_f%d_%s.v", fi, f.name)), []byte(body), 0o644))
+	}
+
+	// ---- 3. a rejected invocation changes nothing (persisted transactions) ----
+	inert := 0
+	for _, c := range []struct {
+		method string
+		args   []any
+	}{
+		{"addRecord", []any{"add.com", int64(1), "+1.2.3.4"}},
+		{"addRecord", []any{"add.com", int64(1), "1.2.3.256"}},
+		{"addRecord", []any{"add.com", int64(1), "1.2.3.4x"}},
+		{"addRecord", []any{"add.com", int64(1), "10.0.0.1"}},
+		{"addRecord", []any{"add.com", int64(28), "2003:1:2:3:4:5:6::"}},
+		{"addRecord", []any{"add.com", int64(28), "2003:g::1"}},
+		{"addRecord", []any{"add.com", int64(28), "2001:db8::1"}},
+		{"addRecord", []any{"add.com", int64(16), strings.Repeat("x", 256)}},
+		{"addRecord", []any{"add.com", int64(5), "A.com"}},
+		{"addRecord", []any{"add.com", int64(5), []byte("\xffa.com")}},
+		{"addRecord", []any{"add.com", int64(6), "x"}},
+		{"setRecord", []any{"set.com", int64(1), int64(0), "01.2.3.4"}},
+		{"setRecord", []any{"set.com", int64(28), int64(0), "2003:::1"}},
+		{"setRecord", []any{"set.com", int64(16), int64(0), strings.Repeat("x", 256)}},
+		{"setRecord", []any{"set.com", int64(5), int64(0), "a.com."}},
+		{"register", []any{"A.com", n.owner.ScriptHash(), "a@b.c", int64(1), int64(2), int64(3000000), int64(4)}},
+		{"register", []any{"a-.com", n.owner.ScriptHash(), "a@b.c", int64(1), int64(2), int64(3000000), int64(4)}},
+		{"register", []any{"ab", n.owner.ScriptHash(), "a@b.c", int64(1), int64(2), int64(3000000), int64(4)}},
+		{"registerTLD", []any{"1om", "a@b.c", int64(1), int64(2), int64(3000000), int64(4)}},
+		{"registerTLD", []any{strings.Repeat("c", 17), "a@b.c", int64(1), int64(2), int64(3000000), int64(4)}},
+	} {
+		before := n.StorageDump(n.nns)
+		signer := []neotest.Signer{n.owner}
+		if c.method == "registerTLD" {
+			signer = []neotest.Signer{n.E.Committee}
+		}
+		r := n.Invoke(signer, n.nns, c.method, c.args...)
+		after := n.StorageDump(n.nns)
+		st.OpHistogram[c.method+"(persisted)"]++
+		st.Evaluations++
+		if r.Halt || len(r.Events) != 0 || !sameDump(before, after) {
+			st.AddViolation(fmt.Sprintf("%s%v: halt=%v, storage changed=%v", c.method, c.args, r.Halt, !sameDump(before, after)), map[string]any{"method": c.method, "args": fmt.Sprint(c.args)})
+		}
+		inert++
+	}
+	// and accepted data is stored (non-vacuity of the observation)
+	for _, c := range []struct {
+		typ  int64
+		data string
+	}{{1, "223.255.255.254"}, {28, "2001:8000::1"}, {16, strings.Repeat("x", 255)}, {5, "a-b.c0"}} {
+		before := n.StorageDump(n.nns)
+		r := n.Invoke([]neotest.Signer{n.owner}, n.nns, "addRecord", "add.com", c.typ, c.data)
+		after := n.StorageDump(n.nns)
+		st.OpHistogram["addRecord(persisted)"]++
+		st.Evaluations++
+		if !r.Halt || sameDump(before, after) {
+			st.AddViolation(fmt.Sprintf("addRecord(%d, %q) was not stored: %s", c.typ, c.data, r.Fault), map[string]any{"type": c.typ, "data": c.data})
+		}
+	}
+
+	st.DistinctNontrivial = len(nontrivial)
+	st.Rule = "one case = one (entry point family, string) pair shown to the compiled NNS contract: names through isAvailable (mutation corpus also through register and registerTLD), " +
+		"record data through addRecord on a domain without records (mutation corpus also through setRecord); distinct_nontrivial counts the distinct pairs that pass the scanner's first length gate " +
+		"(names/CNAME 3..255 bytes, A 7..15, AAAA 2..39, TXT and other types always), i.e. reach the character-level logic; " +
+		fmt.Sprintf("families enumerated exhaustively on both sides: %v; listed: %d corpus/mutation strings + %d seeded random strings (seed-derived PRNG)", famSizes, nMut, 3*nRand)
+	st.Extra["distinct_pairs"] = len(distinct)
+	st.Extra["families"] = famSizes
+	st.Extra["fault_messages_inside_check"] = n.faults
+	st.Extra["inert_rejections_checked_on_persisted_transactions"] = inert
+	st.Samples = []any{
+		map[string]any{"call": "addRecord(add.com, AAAA, \"2003:1:2:3:4:5:6::\")", "observed": "FAULT invalid record data (finding F12)"},
+		map[string]any{"call": "addRecord(add.com, A, \"+1.2.3.4\")", "observed": "FAULT invalid record data (F10 repaired)"},
+		map[string]any{"call": "isAvailable(\"a-.z\")", "observed": "FAULT invalid domain fragment"},
+	}
+	st.Write()
+}
+
+func parenNeg(s string) string {
+	if strings.HasPrefix(s, "-") {
+		return "(" + s + ")"
+	}
+	return s
+}
+
+func sameDump(a, b map[string]string) bool {
+	if len(a) != len(b) {
+		return false
+	}
+	for k, v := range a {
+		if w, ok := b[k]; !ok || w != v {
+			return false
+		}
+	}
+	return true
 }
